@@ -42,6 +42,23 @@ class StartStagePlannerMixin:
             branch_outputs = [u.outputs for u in upstreams if u is not None and u.outputs]
             ancestor_outputs.update(apply_output_reducers(reducers, branch_outputs))
 
+        # Remember which context keys exist only because they were hydrated from
+        # ancestors (and the stage's own list for list/list merges). A re-arm
+        # (reset_stage_for_retry) drops/restores them, so a stage that runs again
+        # in a jump loop is hydrated from the CURRENT ancestor outputs instead of
+        # seeing its own stale copy of the previous iteration ("own context wins").
+        hydrated = set(stage.context.get("_hydrated_keys") or [])
+        hydrated.update(k for k in ancestor_outputs if k not in stage.context)
+        own_lists = dict(stage.context.get("_hydrated_own_lists") or {})
+        for key, value in stage.context.items():
+            if (
+                key not in reducers
+                and key not in own_lists
+                and isinstance(value, list)
+                and isinstance(ancestor_outputs.get(key), list)
+            ):
+                own_lists[key] = list(value)
+
         merged = ancestor_outputs
         for key, value in stage.context.items():
             if key in reducers:
@@ -57,6 +74,10 @@ class StartStagePlannerMixin:
             else:
                 merged[key] = value
 
+        if hydrated:
+            merged["_hydrated_keys"] = sorted(hydrated)
+        if own_lists:
+            merged["_hydrated_own_lists"] = own_lists
         stage.context = merged
 
         # Get builder
